@@ -31,7 +31,11 @@ pub struct Baseline {
 
 static BASELINES: Mutex<Option<HashMap<(u64, usize), Arc<Baseline>>>> = Mutex::new(None);
 
-pub const N_BASE: usize = 6;
+pub const N_BASE: usize = 8;
+/// base inputs >= SPARSE_FROM are sparse: one shard, no padding, a handful of attributed pairs
+/// with pairwise distinct buckets - no aggregation additions, so a share altered late in the
+/// query reaches the output without passing through another proved multiplication
+pub const SPARSE_FROM: usize = 6;
 
 fn gate_prefix(g: &str, depth: usize) -> String {
     // gates look like "protocol/run-0/<step>/<step>/..."; skip the two leading components
@@ -43,12 +47,25 @@ fn base_cfg(seed: u64, i: usize) -> (Vec<Row>, HybridCfg) {
     let mut rng = StdRng::seed_from_u64(digest(&(seed, i as u64, "c02-base")));
     let choices: Vec<u32> = (0..3000).map(|_| rng.next_u32()).collect();
     let mut src = Src::new(&choices);
-    let shards = if i % 3 == 2 { 2 } else { 1 };
+    let sparse = i >= SPARSE_FROM;
+    let shards = if sparse { 1 } else if i % 3 == 2 { 2 } else { 1 };
     let mut labels = vec![];
-    let mut rows = c01::gen_rows(&mut src, 10, &mut labels);
+    let mut rows = if sparse { vec![] } else { c01::gen_rows(&mut src, 10, &mut labels) };
+    if sparse {
+        let npairs = 3 + src.idx(4);
+        for k in 0..npairs {
+            let mk = 0x6000_0000_0000u64 + k as u64;
+            rows.push(Row { mk, kind: RowKind::Impression, payload: (10 + 37 * k) as u8 });
+            rows.push(Row { mk, kind: RowKind::Conversion, payload: 1 + ((k * 3 + i) % 7) as u8 });
+        }
+        // a few unmatched reports that are dropped before aggregation
+        for k in 0..src.idx(3) {
+            rows.push(Row { mk: 0x6100_0000_0000u64 + k as u64, kind: RowKind::Conversion, payload: 3 });
+        }
+    }
     // enough matched pairs that no shard is left without rows (known finding of C01), and at
     // least three populated buckets
-    let need = 12 * shards;
+    let need = if sparse { 0 } else { 12 * shards };
     for k in 0..need {
         let mk = 0x5000_0000_0000u64 + k as u64;
         rows.push(Row { mk, kind: RowKind::Impression, payload: [3u8, 200, 77, 255, 0][k % 5] });
@@ -60,7 +77,7 @@ fn base_cfg(seed: u64, i: usize) -> (Vec<Row>, HybridCfg) {
     let cfg = HybridCfg {
         shards,
         malicious: true,
-        pad: if i % 2 == 1 { Pad::Tiny } else { Pad::None },
+        pad: if i % 2 == 1 && !sparse { Pad::Tiny } else { Pad::None },
         hv_bits: [8u32, 32, 16][i % 3],
         workers: 0,
         world_seed: src.seed(),
@@ -109,7 +126,8 @@ pub fn baseline(seed: u64, i: usize) -> Result<Arc<Baseline>, String> {
 }
 
 pub fn gen_edit(src: &mut Src<'_>, len: usize) -> (Edit, &'static str) {
-    match src.below(8) {
+    match src.below(9) {
+        8 => gen_elem_lsb(src, len),
         0 | 1 => {
             let byte = match src.below(3) {
                 0 => 0,
@@ -127,18 +145,37 @@ pub fn gen_edit(src: &mut Src<'_>, len: usize) -> (Edit, &'static str) {
     }
 }
 
+/// flip one of the lowest bits of one element, for a plausible element size (a divisor of the
+/// chunk length among the record sizes the protocol sends): hits the first field of a row
+pub fn gen_elem_lsb(src: &mut Src<'_>, len: usize) -> (Edit, &'static str) {
+    let strides: Vec<usize> = [1usize, 4, 8, 14, 16, 18, 32].into_iter().filter(|s| len % s == 0).collect();
+    let stride = if strides.is_empty() { 1 } else { strides[strides.len() - 1 - src.idx(strides.len())] };
+    let elem = src.idx(len / stride);
+    (Edit::BitFlip { byte: elem * stride, bit: src.below(3) as u8 }, "elem-lsb")
+}
+
 fn tamper_case(env: &Env, src: &mut Src<'_>) -> CaseResult {
-    tamper_with(env, src, None)
+    tamper_with(env, src, None, 0..N_BASE)
+}
+
+/// sparse inputs (see SPARSE_FROM): late alterations are not re-proved by a later multiplication
+fn tamper_sparse_case(env: &Env, src: &mut Src<'_>) -> CaseResult {
+    tamper_with(env, src, None, SPARSE_FROM..N_BASE)
+}
+
+/// rows in flight between helpers during the two shuffles of a sparse query: low bits of one row
+fn tamper_shuffle_rows_case(env: &Env, src: &mut Src<'_>) -> CaseResult {
+    tamper_with(env, src, Some("shuffle/transfer"), SPARSE_FROM..N_BASE)
 }
 
 /// openings: only channels of steps that reveal a value (pseudonyms, breakdown keys, conversion
 /// masks, MAC r) - a receiver must compare the two copies it gets
 fn tamper_reveal_case(env: &Env, src: &mut Src<'_>) -> CaseResult {
-    tamper_with(env, src, Some("reveal"))
+    tamper_with(env, src, Some("reveal"), 0..N_BASE)
 }
 
-fn tamper_with(env: &Env, src: &mut Src<'_>, only: Option<&str>) -> CaseResult {
-    let bi = src.idx(N_BASE);
+fn tamper_with(env: &Env, src: &mut Src<'_>, only: Option<&str>, bases: std::ops::Range<usize>) -> CaseResult {
+    let bi = bases.start + src.idx(bases.len());
     let base = match baseline(env.seed, bi) {
         Ok(b) => b,
         Err(e) => {
@@ -182,6 +219,8 @@ fn tamper_with(env: &Env, src: &mut Src<'_>, only: Option<&str>) -> CaseResult {
     // it). On that channel only small additive errors are injected.
     let (edit, ename) = if key.gate.contains("cardinality") && len <= 16 {
         (Edit::AddLe { elem: 0, stride: len, width: len, delta: 1 + src.below(32) as u128, modulus: None }, "add-small-cardinality")
+    } else if only == Some("shuffle/transfer") {
+        gen_elem_lsb(src, len)
     } else {
         gen_edit(src, len)
     };
@@ -273,6 +312,12 @@ pub fn subs(_env: &Env) -> Vec<Sub> {
             "honest record run of the whole malicious hybrid query for each of the base inputs (1 and 2 shards, with and without padding, three output widths): must complete and equal the plaintext reference; yields the channel catalogue that the fault cases index"),
         Sub::random("tamper", 40, 1200, 60_000, tamper_case,
             "case = (base input, corrupt helper, channel of that helper chosen by hierarchical stratification over gate components (uniform choice among distinct next components at depths 1..5, then uniform), chunk ordinal first/last/random, edit: bit flip first/last/random byte, xor-all, replace, additive on 1/4/8/32-byte elements incl. modular for Fp32/Fp61); tampered run uses the same seeds as the baseline; accept iff an honest helper errs, or no output within max(5 s, 20x baseline), or the two honest helpers' shares alone reconstruct the baseline histogram; non-trivial = edit fired and changed bytes; distinct by (base, corrupt, gate, dest, shard, edit class, first/middle/last chunk)")
+        .shrink_iters(16),
+        Sub::random("tamper_sparse", 40, 1200, 40_000, tamper_sparse_case,
+            "same as `tamper`, on the sparse base inputs only (one shard, no padding, 3-6 attributed pairs with pairwise distinct buckets, so the aggregation tree has no additions): an alteration of shuffle or reveal traffic late in the query is not re-proved by a later multiplication and must be caught by the step's own check")
+        .shrink_iters(16),
+        Sub::random("tamper_shuffle_rows", 40, 500, 20_000, tamper_shuffle_rows_case,
+            "sparse base inputs, only the shuffle transfer channels (x/y and c tables of the input shuffle and of the attribution-output shuffle), edit = one of the three lowest bits of one row for a plausible row size: the value bits of a row in flight")
         .shrink_iters(16),
         Sub::random("tamper_reveal", 40, 400, 20_000, tamper_reveal_case,
             "same as `tamper`, restricted to channels of steps whose gate contains `reveal` (openings of pseudonyms, breakdown keys, share-conversion masks, MAC keys): the receiver gets two copies of the missing share and must refuse to open when they differ")
